@@ -132,6 +132,13 @@ func cmdCheck(args []string) int {
 		fn := fns[strings.TrimSuffix(k, "#impl")]
 		con := cs.ByKey[k]
 		if fn == nil {
+			// a contract for a function literal that no longer exists while its enclosing function does: the contract
+			// is unused (nothing can call the literal); the enclosing function is verified as it stands now
+			if i := strings.Index(k, "$"); i > 0 && fns[k[:i]] != nil {
+				fmt.Fprintf(os.Stderr, "note: contract for %s ignored (the function literal no longer exists)\n", shortKey(k))
+				done[k] = &FuncResult{Key: k}
+				continue
+			}
 			done[k] = &FuncResult{Key: k, Err: "BINDING: function " + k + " named by a contract does not exist"}
 			undecided = append(undecided, done[k].Err)
 			continue
